@@ -9,17 +9,24 @@ prop(
         dict(run="^TestPropComments$",
              quick=dict(checks=9600, shards=16, timeout=900),
              thorough=dict(checks=400000, shards=16, timeout=7200)),
+        dict(run="^TestPropWatchSnoozeExpiry$",
+             quick=dict(checks=16, shards=8, timeout=900),
+             thorough=dict(checks=160, shards=16, timeout=3600)),
     ],
+    needs_bin=True,
     rule="generated rule files (all YAML styles) x generated config (2-6 rule{} blocks out of label/annotation/for/keep_firing_for/name/aggregate/reject/report, "
          "some locked) -> baseline problems from the default offline checks and the configured ones; a (rule, check) pair is drawn from the baseline report; "
          "x comment form (disable, snooze future/past in RFC3339 or date form, file/disable, file/snooze future/past) x spelling (reporter name or check String()) "
          "x placement (own line above the rule, between two fields, trailing on a rule line; file forms also at the top). File A has the control comment, "
          "file B an inert comment at the same place; oracle: problems(A) == problems(B) minus the problems of that check on that rule (all rules for file forms), "
          "nothing removed for expired snoozes and for rule-level comments aimed at a check from a locked block. "
+         "Watch layer: the real binary runs as `pint watch --interval=1s` on a rule snoozed (snooze / file/snooze, three date layouts) until 5-8 s "
+         "after the daemon started plus an identical control rule; /metrics must show the targeted check silent on the snoozed rule before the expiry and "
+         "reporting on it once three scans that started after the expiry have finished (a daemon too slow to be observed is inconclusive, never a violation). "
          "Non-trivial: baseline has >=2 problems and the slice is non-empty (or the case is a must-change-nothing form).",
     level_text="Generated-input search (rapid, fixed seeds) with a metamorphic oracle over the full problem list (entry, reporter, check instance, summary, severity, "
                "lines, diagnostics). Held on N generated (file, config, comment) triples.",
-    level_note="Timestamps are 2000-01-01 / 2099-01-01 so the verdict does not depend on the clock. File-level forms are only generated with configs that have no "
+    level_note="Timestamps are 2000-01-01 / 2099-01-01 so the verdict does not depend on the clock (the watch layer is the exception: expiry while running is its subject). File-level forms are only generated with configs that have no "
                "locked block (the statement does not define that combination). Trailing placement only on lines holding a complete single-line scalar.",
     assumptions=["an inert comment at the same place changes nothing but is line-number compatible (YAML semantics)"],
 )
